@@ -420,9 +420,9 @@ pub fn messy_strategy_pub() -> BoxedStrategy<MessyCase> {
 
 fn stages(tier: Tier) -> Vec<Box<dyn Stage>> {
     vec![
-        gen_stage_show("reference_free", RULE_A, tier.pick(640, 10_000), 150, || case_strategy(false), check_free, show),
-        gen_stage_show("with_reference", RULE_B, tier.pick(320, 5000), 150, || case_strategy(true), check_ref, show),
-        gen_stage_show("well_formed", RULE_C, tier.pick(480, 8000), 150, messy_strategy, check_messy, |c| json!({"k": c.k, "m": c.m, "samples": messy_samples(c).iter().map(|s| lossy(&s.1[0])).collect::<Vec<_>>()})),
+        gen_stage_show("reference_free", RULE_A, tier.pick(1200, 16_000), 150, || case_strategy(false), check_free, show),
+        gen_stage_show("with_reference", RULE_B, tier.pick(640, 8000), 150, || case_strategy(true), check_ref, show),
+        gen_stage_show("well_formed", RULE_C, tier.pick(800, 10_000), 150, messy_strategy, check_messy, |c| json!({"k": c.k, "m": c.m, "samples": messy_samples(c).iter().map(|s| lossy(&s.1[0])).collect::<Vec<_>>()})),
     ]
 }
 
